@@ -223,3 +223,30 @@ V("c09-inhomogeneous-column", "C09", KLS, "        return 1 / (1 + 1j * w * tau)
 V("c09-literal", "C09", KMI, "        if C == 0.0:\n            C = 1e-50", "        if C == 0.0:\n            C = 1e-50\n        else:\n            C = 2.5", "fire", "R9.5")
 V("c09-tau-from-first-point", "C09", KUT, "    tau_min: float64 = 1 / (max(w) * F_ext)", "    tau_min: float64 = 1 / (w[0] * F_ext)", "fire", "_generate_time_constants")
 V("c09-benign-power-form", "C09", KUT, "    tau_min: float64 = 1 / (max(w) * F_ext)", "    tau_min: float64 = (max(w) * F_ext) ** -1", "silent")
+
+# ---------------------------------------------------------------- C13
+NNLS = "analysis/drt/tr_nnls.py"
+V("c13-kernel-denominator", "C13", NNLS, "        A[i, :] = (product if is_imaginary else 1) * delta_ln_tau / (1 + product**2)", "        A[i, :] = (product if is_imaginary else 1) * delta_ln_tau / (1 + product)", "fire", "_generate_A_matrix")
+V("c13-model-kernel", "C13", NNLS, "            * ((product if is_imaginary else 1) * g_tau / (1 + product**2))", "            * ((1 if is_imaginary else 1) * g_tau / (1 + product**2))", "fire", "_generate_model_impedance:imaginary")
+V("c13-b-sign", "C13", NNLS, "    return A.T @ (-Z_norm.imag if is_imaginary else Z_norm.real)", "    return A.T @ (Z_norm.imag if is_imaginary else Z_norm.real)", "fire", "_generate_b_vector")
+V("c13-loewner-sign", "C13", "analysis/drt/lm.py", "    gammas: Gammas = (-residues / eigenvalues).real", "    gammas: Gammas = (residues / eigenvalues).real", "fire", "_extract_peaks:partial-fraction")
+V("c13-rq-prefactor", "C13", "analysis/drt/mrq_fit.py", "                (R / (2 * pi))\n                * (sin((1 - n) * pi))", "                (R / pi)\n                * (sin((1 - n) * pi))", "fire", "_calculate_tau_gamma:RQ")
+V("c13-gauss-norm", "C13", "analysis/drt/mrq_fit.py", "                R / (W * sqrt(pi)) * exp(-((ln(tau / tau_0) / W) ** 2))", "                R / (W * pi) * exp(-((ln(tau / tau_0) / W) ** 2))", "fire", "RC-area")
+V("c13-gamma-not-scaled", "C13", NNLS, "        gamma: Gammas = g_tau * R_pol", "        gamma: Gammas = g_tau", "fire", "calculate_drt_tr_nnls:gamma")
+V("c13-benign-power", "C13", NNLS, "        A[i, :] = (product if is_imaginary else 1) * delta_ln_tau / (1 + product**2)", "        A[i, :] = (product if is_imaginary else 1) * delta_ln_tau * (1 + product**2) ** -1", "silent")
+
+# ---------------------------------------------------------------- C11
+ZREC = "analysis/zhit/reconstruction.py"
+ZOFF = "analysis/zhit/offset.py"
+ZWGT = "analysis/zhit/weights.py"
+V("c11-gamma", "C11", ZREC, "gamma = -pi / 6", "gamma = pi / 6", "fire", "_reconstruct:gamma")
+V("c11-prefactor", "C11", ZREC, "ln_modulus.append(2 / pi * integral + gamma * derivative)", "ln_modulus.append(1 / pi * integral + gamma * derivative)", "fire", "_reconstruct:formula:impedance")
+V("c11-admittance-sign", "C11", ZREC, "ln_modulus.append(-(-2 / pi * integral - gamma * derivative))", "ln_modulus.append(-(2 / pi * integral + gamma * derivative))", "fire", "_reconstruct:formula:admittance")
+V("c11-start", "C11", ZREC, "ln_w_s: float = ln_omega[0]", "ln_w_s: float = ln_omega[-1]", "fire", "_reconstruct:integral")
+V("c11-weights-dropped", "C11", ZOFF, "return weights * errors", "return errors", "fire", "_offset_residual:weights")
+V("c11-weights-added", "C11", ZOFF, "return weights * errors", "return weights + errors", "fire", "_offset_residual:weights")
+V("c11-benign-formula", "C11", ZREC, "ln_modulus.append(2 / pi * integral + gamma * derivative)", "ln_modulus.append(gamma * derivative + integral * 2 / pi)", "silent")
+V("c11-negative-weights-accepted", "C11", ZOFF, "    if where(weights < 0.0)[0].size > 0:\n        raise ZHITError(\"Weights must be non-negative values!\")\n", "", "fire", "_calculate_modulus_offset:refusals")
+V("c11-phase-mispaired", "C11", ZREC, "                    ln_modulus,\n                    simulated_phase[interpolation][smoothing],\n                    smoothing,", "                    ln_modulus,\n                    simulated_phase[interpolation][list(simulated_phase[interpolation])[0]],\n                    smoothing,", "fire", "phase-pairing")
+V("c11-no-clip", "C11", ZWGT, "weights[indices] = 1.0", "weights[indices] = weights[indices]", "fire", "_generate_weights:support")
+V("c11-benign-residual", "C11", ZOFF, "return weights * errors", "return errors * weights", "silent")
